@@ -75,6 +75,9 @@ def draw_config(rng, wl, tier):
                          # mask, read, set_mask({}): compared with the analysis of the same data without a mask
                          "history_clear": rng.randrange(1, 10**6) if rng.random() < 0.08 else None},
     }
+    if cfg["data_variant"]["history"] is None and cfg["data_variant"]["history_clear"] is None and rng.random() < 0.2:
+        # the same mask as a complete dictionary whose keys are not in ascending order
+        cfg["data_variant"]["complete_mask"] = rng.randrange(1, 10**6)
     if wl["kind"] == "drt" and wl["kwargs"].get("method") in ("lm", "tr-nnls"):
         # entry points without a fan-out of their own: most runs spend their budget on *another data set*
         # (other noise realisation, one more or one fewer masked point) instead of another schedule - the
@@ -91,7 +94,7 @@ def draw_config(rng, wl, tier):
 
 
 def _variant(wl, dv):
-    if not dv or (dv.get("garbage") is None and dv.get("order", "desc") == "desc" and dv.get("history") is None and dv.get("history_clear") is None and dv.get("reseed") is None):
+    if not dv or (dv.get("garbage") is None and dv.get("order", "desc") == "desc" and dv.get("history") is None and dv.get("history_clear") is None and dv.get("reseed") is None and dv.get("complete_mask") is None):
         return wl
     w2 = dict(wl)
     w2["data"] = dict(wl["data"])
@@ -110,6 +113,8 @@ def _variant(wl, dv):
         w2["data"]["garbage"] = dv["garbage"]
     if dv.get("history") is not None:
         w2["data"]["history"] = dv["history"]
+    elif dv.get("complete_mask") is not None:
+        w2["data"]["complete_mask"] = dv["complete_mask"]
     w2["data"]["order"] = dv.get("order", "desc")
     return w2
 
@@ -174,7 +179,7 @@ def _evaluate(wl, cfg, dec, ctx, after_decoy=False):
             # from (ascending input with a mask, or a set_mask history on one object).  With the
             # DataSet defects of C05 repaired this never happens on the unchanged tree; when it does,
             # masked points reach every analysis, which is this property's last sentence.
-            what = [k for k in ("order", "history", "garbage") if dv.get(k) not in (None, "desc")]
+            what = [k for k in ("order", "history", "garbage", "complete_mask") if dv.get(k) not in (None, "desc")]
             return out, [{
                 "clause": "masked-points-ignored", "key": {"clause": "masked-points-ignored", "entry": "DataSet", "variant": "+".join(what) or "plain"},
                 "detail": f"the data set built for {wl['entry']} (variant {dv}) does not present the unmasked points it was built from: analyses would see masked points",
@@ -191,6 +196,10 @@ def _evaluate(wl, cfg, dec, ctx, after_decoy=False):
         out.fired["F9"] = out.fired.get("F9", 0) + 1
     if dv.get("history_clear") is not None:
         out.probes["variant_mask_cleared"] = 1
+    if dv.get("complete_mask") is not None:
+        out.probes["variant_complete_mask"] = 1
+        out.fired = dict(out.fired or {})
+        out.fired["F9"] = out.fired.get("F9", 0) + 1
     if dv.get("history") is not None:
         out.probes["variant_mask_history"] = 1
         out.fired = dict(out.fired or {})
@@ -233,6 +242,8 @@ def _evaluate(wl, cfg, dec, ctx, after_decoy=False):
                 what.append("ascending input order")
             if dv.get("history") is not None:
                 what.append("the same final mask reached through a set_mask history on one object")
+            if dv.get("complete_mask") is not None:
+                what.append("the same mask given as a complete dictionary with keys in another order")
             if dv.get("history_clear") is not None:
                 what.append("a mask that was set, read through every view and then cleared with set_mask({})")
             if what:
